@@ -241,6 +241,22 @@ fn main() {
             let n = (1.0f64 / (sp.get_longest_valid_segment_length() * 0.1)).ceil() as usize;
             println!("motion check of length 1 would need {} steps", n);
         }
+        "c12_quat_overflow" => {
+            // finite quaternion whose squares overflow: norm = inf, every component / inf = 0
+            let r = SO3State::new(1e200, 0.0, 0.0, 0.0).normalise();
+            println!("normalise(1e200,0,0,0) = {:?}", r);
+            let r = SO3State::new(3e160, -4e160, 0.0, 0.0).normalise();
+            println!("normalise(3e160,-4e160,0,0) = {:?}", r);
+        }
+        "c12_wide_bounds" => {
+            // finite bounds whose width overflows: accepted by the constructor, rand panics on hi - lo = inf
+            let r = RealVectorStateSpace::new(1, Some(vec![(-1e308, 1e308)]));
+            match r { Ok(sp) => { println!("accepted, bounds {:?}", sp.bounds);
+                let mut rng = rand::rng();
+                let r = std::panic::catch_unwind(std::panic::AssertUnwindSafe(|| sp.sample_uniform(&mut rng)));
+                println!("sample panicked={} result={:?}", r.is_err(), r.ok()); }
+              Err(e) => println!("rejected {:?}", e) }
+        }
         _ => println!("unknown"),
     }
     let _ = PRM::<RealVectorState, RealVectorStateSpace, CircGoal>::new(0.1, 1.0, &PlannerConfig { seed: None });
